@@ -145,6 +145,35 @@ fn merge_with_size_oracle(e: &mut Eng, ctx: &Ctx, case: u64, out: &mut Out) -> R
         let truth = scan::truth_from_scan(&before);
         before.iter().map(|(id, f)| f.recs.iter().filter(|r| truth.get(&r.key).map(|l| !(l.fileid == *id && l.pos == r.pos)).unwrap_or(true)).count() as u64).sum()
     };
+    // which files are eligible, computed here from the files themselves by the documented rule
+    // (dead bytes above the threshold, or fragmentation above the threshold, or size below the
+    // small-file threshold), not taken from the store
+    let all_eligible = {
+        let truth = scan::truth_from_scan(&before);
+        let mut any = false;
+        let mut all = true;
+        for (id, f) in &before {
+            if f.recs.is_empty() {
+                continue;
+            }
+            any = true;
+            let (mut live, mut dead, mut dead_bytes) = (0u64, 0u64, 0u64);
+            for r in &f.recs {
+                if truth.get(&r.key).map(|l| l.fileid == *id && l.pos == r.pos).unwrap_or(false) {
+                    live += 1;
+                } else {
+                    dead += 1;
+                    dead_bytes += r.len;
+                }
+            }
+            let frag = if dead == 0 { 0.0 } else { dead as f64 / (dead as f64 + live as f64) };
+            let eligible = dead_bytes > e.conf.thr_dead || frag > e.conf.thr_frag || f.size < e.conf.thr_small;
+            if !eligible {
+                all = false;
+            }
+        }
+        any && all
+    };
     let info = e.do_merge()?;
     out.count("merges", 1);
     out.evaluations += 1;
@@ -153,7 +182,9 @@ fn merge_with_size_oracle(e: &mut Eng, ctx: &Ctx, case: u64, out: &mut Out) -> R
     }
     out.count("bytes_reclaimed", info.size_before - info.size_after);
     e.check_all("after merge")?;
-    let all_eligible = e.conf.thr_small == u64::MAX;
+    if all_eligible && e.conf.thr_small != u64::MAX {
+        out.count("all_eligible_merges_by_dead_bytes_or_fragmentation", 1);
+    }
     if !info.removed.is_empty() && dead_before > 0 {
         out.class(format!("{:016x}", e.trace_hash()));
     }
@@ -237,6 +268,7 @@ fn episode(ctx: &Ctx, f: Focus, case: u64, out: &mut Out) -> Result<(), (Fail, S
     let big_ok = f != Focus::C02 || r.chance(1, 4);
     let dir = fresh_dir(&ctx.scratch, &format!("c{}", case));
     let mut e = Eng::new(r, &dir, conf, thr, keys, big_ok);
+    e.huge_ok = case % 8 == 5 && f != Focus::C19;
     let mut snapshots = 0u64;
     let mut snapshots_after_hint_rebuild = 0u64;
     let mut merged_since_reopen = false;
